@@ -100,6 +100,9 @@ def compare(c, impl, model):
     for k, (mt, dt) in enumerate(zip(tours, s['tours'])):
         if not mt:
             continue                      # the tour cannot be rebuilt: reported by the oracle (RNoReplay)
+        if e2e.tour_has_cluster(dt):
+            skipped = True                # clustered stops: ValidX.replay_tour_cl only, the writer model has no commute / parking
+            continue
         if e2e.tour_required_breaks(c, dt):
             # a shift with REQUIRED breaks: the reserved time stretches legs and activities (and may be taken without being
             # reported, findings C03-F5 / C01-F6): covered by the independent replay around the reserved times (ValidX.replay4) only
@@ -129,7 +132,9 @@ CLASS = {'RNoReplay': 'tour-not-replayable', 'RArrival': 'arrival-not-reproducib
          'RLoad': 'load-not-reproducible', 'RLoadDim': 'load-not-reproducible-in-extra-dimension', 'RDistance': 'distance-not-reproducible', 'RTag': 'tag-mismatch',
          'RStatDistance': 'statistic-distance', 'RStatDuration': 'statistic-duration', 'RStatDriving': 'statistic-driving',
          'RStatServing': 'statistic-serving', 'RStatWaiting': 'statistic-waiting', 'RStatBreak': 'statistic-break',
-         'RStatCost': 'statistic-cost', 'RTotal': 'total-is-not-sum-of-tours'}
+         'RStatCost': 'statistic-cost', 'RTotal': 'total-is-not-sum-of-tours',
+         'RParking': 'parking-not-reproducible', 'RCommute': 'commute-not-reproducible', 'RStopArrival': 'stop-arrival-not-reproducible',
+         'RStatCommuting': 'statistic-commuting', 'RStatParking': 'statistic-parking'}
 
 
 def _flat(tour):
@@ -178,6 +183,9 @@ def _rb_class(c, s, t, cls, what):
     if name == 'RTotal' or len(t) < 2 or not isinstance(t[1], int) or not 0 <= t[1] < len(s['tours']):
         return cls, what
     tour = s['tours'][t[1]]
+    if e2e.tour_has_cluster(tour):
+        # finding C03-F9: tours with clustered stops (vicinity clustering) - one class per rule, see notes/C03.md
+        return 'clustered-tour:' + cls, what + ' (tour with a clustered stop)'
     if not e2e.tour_required_breaks(c, tour):
         return cls, what
     if e2e.rb_unreported_time(c, tour) > 0:
@@ -237,7 +245,9 @@ def oracle(c, impl):
         rbt = [t for t in s['tours'] if e2e.tour_required_breaks(c, t)]
         extra = [(e2e.rb_waiting_overlap(c, t) + e2e.rb_driving_excess(c, t)) * int(e2e.vehicle_type_of(c, t)['costs']['time'])
                  for t in s['tours'] if e2e.tour_required_breaks(c, t) and e2e.vehicle_type_of(c, t)]
-        if any(e2e.rb_unreported_time(c, t) > 0 for t in rbt):
+        if any(e2e.tour_has_cluster(t) for t in s['tours']):
+            cls = 'clustered-tour:core-cost-differs-from-reported-cost'                               # C03-F9
+        elif any(e2e.rb_unreported_time(c, t) > 0 for t in rbt):
             cls = 'schedule-around-required-break-counted-in-statistic-but-not-reported'              # C03-F5
         elif any(e2e.rb_missing_class(c, t) == 'required-break-inside-last-activity-of-open-tour-not-reported' for t in rbt):
             cls = 'schedule-around-required-break-inside-last-activity-of-open-tour-not-reported'     # C03-F8
